@@ -13,6 +13,19 @@ def _race_record(ctx, race_bin, subcmd, args, trace):
     ee = {"VERIF_WORK": ctx.work}
     ee.update(RACE_ENV)
     rc, out, err = ctx.drive([subcmd, "-out", trace] + args, binary=race_bin, env_extra=ee, timeout=1800)
+    if rc != 0 and os.path.exists(trace):
+        # the recorder was stopped in the middle of its work (race detector, panic): keep the complete events only
+        good = []
+        for line in open(trace, "rb").read().split(b"\n"):
+            if not line.strip():
+                continue
+            try:
+                json.loads(line)
+            except Exception:
+                break
+            good.append(line)
+        with open(trace, "wb") as f:
+            f.write(b"".join(l + b"\n" for l in good))
     if rc == 66 or "WARNING: DATA RACE" in err:
         rep = err[err.find("WARNING: DATA RACE"):][:3000]
         with open(trace, "a") as f:
